@@ -51,8 +51,8 @@ CHECKS['C08'] = (
     'columns, function_types) are checked on every explored result by the Lean validator model (correspondence-checked against validate_data) and by '
     'the library validator: 2^6 option combinations x augmentation on store samples (exhaustive over the store in the thorough tier) and generated dictionaries. '
     'Whole-rule theorems: pruneShell_output_valid (every validator rule holds for what prune_shell returns, given a semantically well-formed, tagged, positive input; '
-    '"no duplicate contraction" is the one hypothesis), pruneShell(s)_identity_on_valid (pruning valid data changes nothing), uncontractGeneral_valid (validateElement = none for '
-    'everything uncontract_general returns on a valid element). Partial: the same closure for make_general / uncontract_spdf / segmented / optimize_general is not proved (duplicate contractions across merged shells are the known finding F10b).',
+    '"no duplicate contraction" is the one hypothesis), pruneShell(s)_identity_on_valid (pruning valid data changes nothing), uncontractGeneral_valid and uncontractSegmented_valid (validateElement = none for '
+    'everything uncontract_general / uncontract_segmented + prune returns on a valid element). Partial: the same closure for make_general / uncontract_spdf / optimize_general is not proved (duplicate contractions across merged shells are the known finding F10b).',
     BASE_NOTE + 'jsonschema package for the generic schema part.', '6/C08')
 
 CHECKS['C01'] = (
